@@ -151,20 +151,14 @@ def run(ctx):
     pst = [s_ for s_ in sch.events() if s_.kind == 'store' and s_.lhs.k == 'mem' and s_.lhs.n == 'prio']
     rb.expect(len(pst) == 1 and pst[0].rhs.s == dist and (not adds or sch.precedes(pst[0], adds[0])), 'spq:new-queue-prio', pst[0].loc if pst else sch.where(),
               'the new queue must be labelled with the distance of the ring before it is linked', note='spq: new queue prio = distance')
-    srt = [e for e in sch.events() if e.kind == 'call' and e.fn == 'parsec_list_chain_sorted']
+    srt = [e for e in sch.events() if e.kind == 'call' and e.fn in ('parsec_list_chain_sorted', 'parsec_list_nolock_chain_sorted')]
     oks = len(srt) == 1 and srt[0].args[1].s == ring and is_cmp(sch, srt[0].args[2]) and srt[0].args[0].s.endswith('->tasks') and sch.postdominates(srt[0].point, (sch.entry, 0))
     rb.expect(oks, 'spq:ring-sorted', srt[0].loc if srt else sch.where(), 'the ring must be chain_sorted by task priority into the tasks list of the selected queue, on every path',
               note='spq: ring chain_sorted by task priority into its distance queue')
-    for f in (sch, sel):
-        ls = lockset_analysis(f, BASE_LOCKS)
-        inner = [e for e in f.events() if e.kind == 'call' and e.fn in ('parsec_list_chain_sorted', 'parsec_list_pop_front', 'parsec_list_nolock_add_before')]
-        okl = bool(inner) and all(any(l.endswith('task_list->super') or 'super' in l for l in (ls.must_before(e) or ())) for e in inner) \
-            and all(not may for _, must, may, _ in ls.exits())
-        rb.expect(okl, 'spq:%s-locked' % f.name, f.where(), '%s must work on the queues under the lock of the outer list and release it on every exit' % f.name,
-                  note='%s: under the outer list lock, released on all exits' % f.name)
+    spq_lock_consistency(ctx, rb, sch, sel)
     # select: forward walk from the first queue, pop_front of the first non-empty, distance reported
     pops = [e for e in sel.events() if e.kind == 'call' and e.fn in ('parsec_list_pop_front', 'parsec_list_pop_back', 'parsec_list_nolock_pop_front', 'parsec_list_nolock_pop_back')]
-    okp = len(pops) == 1 and pops[0].fn == 'parsec_list_pop_front' and pops[0].args[0].s.endswith('->tasks')
+    okp = len(pops) == 1 and pops[0].fn in ('parsec_list_pop_front', 'parsec_list_nolock_pop_front') and pops[0].args[0].s.endswith('->tasks')
     li = None
     if okp:
         adv = [s_ for s_ in sel.events() if s_.kind == 'store' and s_.lhs.k == 'ref' and s_.rhs is not None and s_.rhs.k == 'mem' and s_.rhs.n in ('list_next', 'list_prev') and s_.rhs.ch[0].s == s_.lhs.s]
@@ -176,3 +170,44 @@ def run(ctx):
     ds = [s_ for s_ in sel.events() if s_.kind == 'store' and s_.lhs.s == '*%s' % sel.params[1]['n']]
     rb.expect(len(ds) == 1 and ds[0].rhs.s.endswith('->prio'), 'spq:select-distance', ds[0].loc if ds else sel.where(),
               'select must report the distance of the queue the task came from', note='spq: distance of the served queue reported')
+
+
+
+LOCKED_LIST_OPS = {'parsec_list_chain_sorted', 'parsec_list_pop_front', 'parsec_list_pop_back', 'parsec_list_push_sorted', 'parsec_list_chain_back', 'parsec_list_chain_front',
+                   'parsec_list_push_back', 'parsec_list_push_front'}
+NOLOCK_LIST_OPS = {'parsec_list_nolock_chain_sorted', 'parsec_list_nolock_pop_front', 'parsec_list_nolock_pop_back', 'parsec_list_nolock_push_sorted', 'parsec_list_nolock_chain_back',
+                   'parsec_list_nolock_chain_front', 'parsec_list_nolock_push_back', 'parsec_list_nolock_push_front', 'parsec_list_nolock_add_before', 'parsec_list_nolock_add_after',
+                   'parsec_list_nolock_remove'}
+
+
+def spq_lock_consistency(ctx, rule, sch, sel):
+    """Lockset consistency: every access of schedule/select to a per-distance task list holds a common lock
+    (the lock of the outer list, or the list's own lock taken by a locked list operation); accesses to the
+    outer list are made under its lock; every lock is released on every exit."""
+    common = None
+    n = 0
+    for f in (sch, sel):
+        ls = lockset_analysis(f, BASE_LOCKS)
+        for e in f.events():
+            if e.kind != 'call' or e.fn not in (LOCKED_LIST_OPS | NOLOCK_LIST_OPS) or not e.args:
+                continue
+            tgt = e.args[0].s
+            held = set()
+            for l in (ls.must_before(e) or ()):
+                if 'task_list' in l:
+                    held.add('outer')
+            if tgt.endswith('->tasks'):
+                if e.fn in LOCKED_LIST_OPS:
+                    held.add('inner')
+                n += 1
+                common = held if common is None else (common & held)
+                rule.expect(bool(held), 'spq:%s:%s-unprotected' % (f.name, e.fn), e.loc, '%s touches a per-distance task list with %s while holding no lock' % (f.name, e.fn),
+                            note='%s: %s on a distance queue holds %s' % (f.name, e.fn, '+'.join(sorted(held))))
+            else:
+                rule.expect('outer' in held or e.fn in LOCKED_LIST_OPS, 'spq:%s:%s-outer-unlocked' % (f.name, e.fn), e.loc,
+                            '%s changes the list of per-distance queues with %s outside the lock of that list' % (f.name, e.fn),
+                            note='%s: %s on the list of queues under its lock' % (f.name, e.fn))
+        rule.expect(all(not may for _, must, may, _ in ls.exits()), 'spq:%s-exit-locked' % f.name, f.where(), '%s can return holding a lock' % f.name, note='%s: all locks released on every exit' % f.name)
+    rule.expect(n >= 2 and bool(common), 'spq:distance-queue-common-lock', sch.where(),
+                'sched_spq_schedule and sched_spq_select do not hold a common lock when they touch a per-distance task list: a pop can run concurrently with a sorted insertion and lose or duplicate a task',
+                note='all accesses to a distance queue hold a common lock (%s)' % '+'.join(sorted(common or ())))
